@@ -295,8 +295,30 @@ where
 pub struct ReadableSystemTime(pub SystemTime);
 impl Display for ReadableSystemTime {
     fn fmt(&self, f: &mut std::fmt::Formatter<'_>) -> std::fmt::Result {
-        let format = DateTime::<Utc>::from(self.0).format("%Y-%m-%d %H:%M:%S%.3f %Z (%s%.9f)");
-        Display::fmt(&format, f)
+        // Not every SystemTime is representable by chrono (and converting one that isn't panics),
+        // so convert by hand and fall back to the raw seconds for those.
+        let (secs, nanos) = match self.0.duration_since(SystemTime::UNIX_EPOCH) {
+            Ok(duration) => (i64::try_from(duration.as_secs()).ok(), duration.subsec_nanos()),
+            Err(e) => {
+                let duration = e.duration();
+                let secs = i64::try_from(duration.as_secs()).ok().map(|s| -s);
+                if duration.subsec_nanos() == 0 {
+                    (secs, 0)
+                } else {
+                    (
+                        secs.and_then(|s| s.checked_sub(1)),
+                        1_000_000_000 - duration.subsec_nanos(),
+                    )
+                }
+            }
+        };
+        match secs.and_then(|secs| DateTime::<Utc>::from_timestamp(secs, nanos)) {
+            Some(time) => {
+                let format = time.format("%Y-%m-%d %H:%M:%S%.3f %Z (%s%.9f)");
+                Display::fmt(&format, f)
+            }
+            None => write!(f, "out of range ({:?})", self.0),
+        }
     }
 }
 impl Debug for ReadableSystemTime {
